@@ -1,9 +1,14 @@
 import NTV.Model.Algebraic
-import NTV.Proofs.Lemmas.PolyRing
+import NTV.Proofs.Lemmas.PolyDivZ
 import Mathlib.Algebra.Polynomial.FieldDivision
 open Polynomial
 namespace NTV.Alg
 open NTV.PolyG
+
+theorem natDegree_toPoly_le (s : List Rat) : (toPoly s).natDegree ≤ s.length - 1 := by
+  rw [natDegree_le_iff_coeff_eq_zero]
+  intro N hN
+  rw [coeff_toPoly]; exact getD_of_length_le s N (by omega)
 
 theorem getD_range_map (n : Nat) (f : Nat → Rat) (k : Nat) :
     ((List.range n).map f).getD k 0 = if k < n then f k else 0 := by
@@ -29,34 +34,20 @@ theorem shiftMod_spec (c : List Rat) (hc : c ≠ []) (hcc : Canon c) (cur : List
     rw [List.getLastD_eq_getLast?, List.getLast?_eq_some_getLast hc]
     exact (getLast_eq_getD c hc).symm
   refine ⟨by simp [shiftMod], ?_⟩
+  have hX : X * toPoly cur = toPoly ((0 : Rat) :: cur) := by simp [toPoly]
+  rw [hX]
   ext k
-  simp only [shiftMod, coeff_toPoly, getD_range_map, coeff_sub, coeff_X_mul', coeff_C_mul]
+  simp only [shiftMod, coeff_toPoly, getD_range_map, coeff_sub, coeff_C_mul]
   have hpos : 0 < c.length := List.length_pos_of_ne_nil hc
   by_cases hk : k < c.length - 1
-  · simp only [hk, ↓reduceIte, getD_cons_zero]
-    by_cases h0 : k = 0
-    · subst h0; simp
-    · have : 1 ≤ k := by omega
-      simp [h0, this, coeff_toPoly]
+  · simp only [hk, ↓reduceIte]
   · simp only [hk, ↓reduceIte]
     by_cases he : k = c.length - 1
     · subst he
       rw [hlcD]
-      have h1 : 1 ≤ c.length - 1 ∨ c.length - 1 = 0 := by omega
-      rcases h1 with h1 | h1
-      · simp only [h1, ↓reduceIte, coeff_toPoly, getD_cons_zero]
-        have : ¬ (c.length - 1 = 0) := by omega
-        simp only [this, ↓reduceIte]
-        field_simp
-        ring
-      · -- n = 0: cur is empty
-        have : cur = [] := List.length_eq_zero_iff.mp (by omega)
-        subst this
-        simp [h1]
-    · have hbig : c.length - 1 < k := by omega
-      have h1 : 1 ≤ k := by omega
-      simp only [h1, ↓reduceIte, coeff_toPoly]
-      rw [getD_of_length_le cur (k - 1) (by omega), getD_of_length_le c k (by omega)]
+      field_simp
+      ring
+    · rw [getD_of_length_le ((0 : Rat) :: cur) k (by simp; omega), getD_of_length_le c k (by omega)]
       ring
 
 theorem toPoly_zipWith_add_mul (ai : Rat) : ∀ (result cur : List Rat), result.length = cur.length →
@@ -142,7 +133,7 @@ theorem mulWithMod_spec (a b c : List Rat) (hc : c ≠ []) (hcc : Canon c) (hn :
         by_cases h0 : toPoly R = 0
         · rw [h0, degree_zero]; exact WithBot.bot_lt_coe _
         · rw [degree_eq_natDegree h0]
-          have := natDegree_toPoly_le' R
+          have := natDegree_toPoly_le R
           have : (toPoly R).natDegree < (toPoly c).natDegree := by rw [hP.1]; omega
           exact_mod_cast this
       have hmodR : toPoly R % toPoly c = toPoly R := (mod_eq_self_iff hP.2.2).mpr hdeg
@@ -151,7 +142,7 @@ theorem mulWithMod_spec (a b c : List Rat) (hc : c ≠ []) (hcc : Canon c) (hn :
       rw [hQ, hzero, hcurP]
       exact ⟨Q, by ring⟩
     · have := length_fromRaw_le (mulLoop c (c.length - 1) (lc c) a cur (List.replicate (c.length - 1) 0))
-        (c.length - 1) (fun j hj => getD_of_length_le' _ j (by omega))
+        (c.length - 1) (fun j hj => getD_of_length_le _ j (by omega))
       exact this
 
 end NTV.Alg
